@@ -58,7 +58,7 @@ def run(tier, seed):
     hs, batch = [], Batch()
     try:
         h = Harness(ck, 'c02_cmp', src); hs.append(h)
-        batch.add(h, 170 if quick else 900, only=['cmp_total_nn_ok', 'cmp_total_nb_ok', 'cmp_total_ns_ok', 'cmp_total_ss_ok', 'cmp_total_s1_ok', 'cmp_blank_ok', 'cmp_error_ok', 'concat_ok', 'concat_str_ok'])
+        batch.add(h, 300 if quick else 900, only=['cmp_total_nn_ok', 'cmp_total_nb_ok', 'cmp_total_ns_ok', 'cmp_total_ss_ok', 'cmp_total_s1_ok', 'cmp_blank_ok', 'cmp_error_ok', 'concat_ok', 'concat_str_ok'])
         for a in range(22):
             bits = ', '.join('a%d == %s' % (i, bool(a >> i & 1)) for i in range(5))
             s = src.replace('pre: sel(a0, a1, a2, a3, a4) < len(POW) and', 'pre: %s\n    pre:' % bits.replace(', ', ' and '))
